@@ -67,7 +67,7 @@ func (w *rawWS) ping(id int) bool {
 	if w.send([]byte(fmt.Sprintf(`{"jsonrpc":"2.0","id":%d,"method":"vipnode_ping"}`, id))) != nil {
 		return false
 	}
-	deadline := time.Now().Add(3 * time.Second)
+	deadline := time.Now().Add(12 * time.Second) // generous: only a dead or wedged peer runs into it
 	for time.Now().Before(deadline) {
 		b, err := w.read(time.Until(deadline))
 		if err != nil {
@@ -342,7 +342,7 @@ func runHostilePool(args []string) {
 				got, wf := false, false
 				isReq := sc.c["json"] == "valid" && sc.c["method"] != "none"
 				if isReq && idk != "absent" && sendErr == nil {
-					got, wf = hostile.awaitReply(id, 4*time.Second)
+					got, wf = hostile.awaitReply(id, 12*time.Second)
 				} else {
 					time.Sleep(2 * time.Millisecond)
 				}
@@ -489,7 +489,7 @@ func semanticCases(tr *Trace, p *poolProc, control *rawWS, ctl *int, rng *rand.R
 		msg := []byte(fmt.Sprintf(`{"jsonrpc":"2.0","id":%s,"method":%q,"params":%s}`, id, sc.method, params))
 		got, wf := false, false
 		if h != nil && h.send(msg) == nil {
-			got, wf = h.awaitReply(id, 6*time.Second)
+			got, wf = h.awaitReply(id, 15*time.Second)
 		}
 		*ctl++
 		ctrlOK := control.ping(*ctl)
@@ -578,7 +578,7 @@ func hostileHostCases(tr *Trace, p *poolProc, control *rawWS, ctl *int, rng *ran
 			}
 		}
 		// the honest client must get an answer (hosts or an error) within the whitelist timeout
-		got, wf := cc.awaitReply("2", 9*time.Second)
+		got, wf := cc.awaitReply("2", 20*time.Second)
 		*ctl++
 		tr.emit(J{"ev": "hostreply", "mode": mode, "minbal": minbal, "asked": reqID != "", "alive": p.alive(), "control": control.ping(*ctl), "got": got, "wellformed": wf})
 		hc.c.Close()
@@ -716,10 +716,29 @@ func runHostileAgent(args []string) {
 		done := make(chan error, 1)
 		go func() { done <- cmd.Wait() }()
 		exited := false
-		select {
-		case <-done:
-			exited = true
-		case <-time.After(2500 * time.Millisecond):
+		expectAnswer := map[string]bool{"requests-unknown": true, "requests-badparams": true, "requests-whitelist-odd": true, "requests-noid": true,
+			"honest": true, "legacy-client-requests": false}[mode]
+		limit := time.Now().Add(3 * time.Second)
+		if expectAnswer {
+			limit = time.Now().Add(15 * time.Second)
+		}
+	waitLoop:
+		for time.Now().Before(limit) {
+			select {
+			case <-done:
+				exited = true
+				break waitLoop
+			case <-time.After(50 * time.Millisecond):
+			}
+			mu.Lock()
+			a := answered
+			mu.Unlock()
+			if expectAnswer && a >= 1 {
+				time.Sleep(200 * time.Millisecond)
+				break
+			}
+		}
+		if !exited {
 			cmd.Process.Kill()
 			<-done
 		}
@@ -864,7 +883,7 @@ func runBinConn(args []string) {
 						h.ws.mu.Unlock()
 						h.ws.c.UnderlyingConn().Close()
 					}
-					time.Sleep(300 * time.Millisecond)
+					time.Sleep(800 * time.Millisecond)
 					r = okRes(nil)
 				case "Connect", "Peer":
 					h := conns[st.conn]
